@@ -10,6 +10,8 @@ Has(e, f) == f \in DOMAIN e
 Rej(clause) == PrintT(<<"REJECT", clause, l>>)
 Check(cond, clause) == IF cond THEN TRUE ELSE Rej(clause)
 RefCheck(cond, clause) == IF cond THEN TRUE ELSE PrintT(<<"DIVERGE", clause, l>>)
+MinTag == <<-2000000000, 0, 0>>
+MaxTag == <<2000000000, 0, 0>>
 Raised(e) == Has(e, "exc") /\ e.exc \in {"ValueError", "OverflowError"}
 
 \* JSON limbs {"s":..,"d":[..]} are already BigInt records
@@ -86,6 +88,21 @@ StepInstant(e) ==
          /\ Check(e.eq = (c = 0) /\ e.ne = (c # 0), "instant_equality")
          /\ Check(Sign(e.cmp) = c, "instant_compare_to")
          /\ Check(e.max = (IF c >= 0 THEN e.a ELSE e.b) /\ e.min = (IF c <= 0 THEN e.a ELSE e.b), "instant_min_max")
+    \* offsets applied to instants / local instants (the local time line has the same day range as the instant line):
+    \* the plain route raises outside the range, the "safe" route answers with the before-minimum / after-maximum marker
+    [] e.op = "i_local" ->
+         LET sum == Add3(e.a, OfSeconds(e.o)) IN
+         /\ IF InstantInRange(sum)
+            THEN /\ Check(~Has(e, "exc") /\ Has(e, "res") /\ e.res = sum, "instant_plus_offset_exact")
+                 /\ Check(Has(e, "back") /\ e.back = e.a, "local_instant_minus_offset_returns_the_instant")
+            ELSE Check(Raised(e), "instant_plus_offset_out_of_range_must_raise")
+         /\ Check(Has(e, "safe") /\ e.safe = (IF InstantInRange(sum) THEN sum ELSE IF sum[1] < InstantMinDay THEN MinTag ELSE MaxTag),
+                  "safe_instant_plus_offset_exact_or_marker")
+    [] e.op = "l_minus" ->
+         LET diff == Sub3(e.a, OfSeconds(e.o)) IN
+         /\ Outcome(e, InstantInRange(diff), diff, "local_instant_minus_offset")
+         /\ Check(Has(e, "safe") /\ e.safe = (IF InstantInRange(diff) THEN diff ELSE IF diff[1] < InstantMinDay THEN MinTag ELSE MaxTag),
+                  "safe_local_instant_minus_offset_exact_or_marker")
     [] e.op = "i_from_utc" ->
          LET valid == /\ e.y >= -9998 /\ e.y <= 9999 /\ e.mo \in 1..12
                       /\ e.d \in 1..GJMonthLen(GregLeap(e.y), IF e.mo \in 1..12 THEN e.mo ELSE 1)
@@ -122,7 +139,7 @@ Next == /\ l <= Len(Events)
         /\ l' = l + 1
         /\ LET e == Events[l] IN
              CASE e.op \in {"d_from", "d_add", "d_sub", "d_neg", "d_mul", "d_div", "d_cmp", "d_parts", "d_total"} -> StepDuration(e)
-               [] e.op \in {"i_from_unix", "i_to_unix", "i_plus", "i_minus", "i_diff", "i_cmp", "i_from_utc"} -> StepInstant(e)
+               [] e.op \in {"i_from_unix", "i_to_unix", "i_plus", "i_minus", "i_diff", "i_cmp", "i_from_utc", "i_local", "l_minus"} -> StepInstant(e)
                [] OTHER -> StepOffset(e)
 Spec == Init /\ [][Next]_l
 =============================================================================
